@@ -142,15 +142,21 @@ void AttributesTools::resolveVariables(
   for (map<string, string>::iterator it = am.begin(); it != am.end(); it++)
   {
     string value = it->second;
+    // Variables whose value is being expanded, with the end of the text they were replaced by:
+    // a reference to one of them from inside that text is a cycle.
+    vector<pair<string, string::size_type>> expanding(1, make_pair(it->first, string::npos));
     string::size_type index1 = value.find(TextTools::toString(varCode) + TextTools::toString(varBeg));
     while (index1 != string::npos)
     {
       string::size_type index2 = value.find(TextTools::toString(varEnd), index1);
       if (index2 != string::npos)
       {
+        while (expanding.back().second <= index1)
+          expanding.pop_back();
         string varName  = value.substr(index1 + 2, index2 - index1 - 2);
         map<string, string>::iterator varIt = am.find(varName);
         string varValue = "";
+        bool expanded = false;
         if (varIt == am.end())
         {
           if (ApplicationTools::error)
@@ -159,15 +165,31 @@ void AttributesTools::resolveVariables(
         }
         else
         {
-          if (varIt->second == value)
+          bool cyclic = (varIt->second == value);
+          for (const auto& e : expanding)
+          {
+            if (e.first == varName)
+              cyclic = true;
+          }
+          if (cyclic)
           {
             if (ApplicationTools::error)
               (*ApplicationTools::error << "Variable '" << varName << "' definition is cyclic and was ignored.").endLine();
             varValue = "";
           }
           else
+          {
             varValue = varIt->second;
+            expanded = true;
+          }
         }
+        for (auto& e : expanding)
+        {
+          if (e.second != string::npos)
+            e.second = (e.second > index2) ? e.second - (index2 + 1 - index1) + varValue.size() : index1 + varValue.size();
+        }
+        if (expanded)
+          expanding.push_back(make_pair(varName, index1 + varValue.size()));
         string newValue = value.substr(0, index1) + varValue + value.substr(index2 + 1);
         it->second = newValue;
         value = it->second;
